@@ -156,6 +156,60 @@ op('from_scalars2', [(('S', 'S'), 'V2')], lambda o, p: Vector.from_scalars(o[0],
 op('from_scalars3', [(('S', 'S', 'S'), 'V3')], lambda o, p: Vector3.from_scalars(o[0], o[1], o[2]),
    lambda a, p, ts: ['cat', ['cat', a[0], a[1]], a[2]])
 
+# constructor-like class methods of Vector3 (each argument carries its own keys)
+S3V = [(('S', 'S', 'S'), 'V3')]
+
+
+def _radec2_real(o, p):
+    form = p.get('len', 'none')
+    if form == 'none':
+        return Vector3.from_ra_dec_length(o[0], o[1])
+    if form == 'one':
+        return Vector3.from_ra_dec_length(o[0], o[1], 1.)
+    return Vector3.from_ra_dec_length(o[0], o[1], float(p['c']))
+
+
+def _radec2_sym(a, p, ts):
+    if p.get('len', 'none') in ('none', 'one') or (p.get('len') == 'num' and float(p['c']) == 1.0):
+        return ['fromradec', a[0], a[1]]
+    return ['fromradeclen', a[0], a[1], ['lit', bits(float(p['c']))]]
+
+
+op('from_ra_dec_length', S3V, lambda o, p: Vector3.from_ra_dec_length(o[0], o[1], o[2]),
+   lambda a, p, ts: ['fromradeclen', a[0], a[1], a[2]])
+op('from_ra_dec', [(('S', 'S'), 'V3')], _radec2_real, _radec2_sym)
+op('from_cylindrical', S3V, lambda o, p: Vector3.from_cylindrical(o[0], o[1], o[2]), lambda a, p, ts: ['fromcyl', a[0], a[1], a[2]])
+op('from_cylindrical2', [(('S', 'S'), 'V3')], lambda o, p: Vector3.from_cylindrical(o[0], o[1]),
+   lambda a, p, ts: ['fromcyl', a[0], a[1], ['lit', bits(0.0)]])
+
+
+def _radec_guard(o, p):
+    need(isinstance(o[0], Vector3))                    # a Vector3 method (operands may be base-class Vectors)
+    v = vals(o[0])
+    n = vnorm(o[0])
+    need(n > 0.3)
+    i = int(p['i'])
+    if i == 0:
+        need(np.abs(v[..., 1]) > 0.15)                 # away from the arctan2 cut and the wrap of `% 2pi`
+    if i == 1:
+        need(np.abs(v[..., 2] / n) < 0.9)
+
+
+op('to_ra_dec_length', [(('V3',), 'S')], lambda o, p: o[0].to_ra_dec_length()[int(p['i'])], None, _radec_guard)
+
+
+def _cyl_guard(o, p):
+    need(isinstance(o[0], Vector3))
+    v = vals(o[0])
+    i = int(p['i'])
+    if i == 0:
+        need(v[..., 0] ** 2 + v[..., 1] ** 2 > 0.1)
+    if i == 1:
+        need(np.abs(v[..., 1]) > 0.15)
+
+
+op('to_cylindrical', [(('V3',), 'S')], lambda o, p: o[0].to_cylindrical()[int(p['i'])], None, _cyl_guard)
+
 # matrices
 MM = [(('M2', 'M2'), 'M2'), (('M3', 'M3'), 'M3')]
 op('matmul', MM, lambda o, p: o[0] * o[1], lambda a, p, ts: ['matmul', MN[ts[0]], MN[ts[0]], MN[ts[0]], a[0], a[1]])
